@@ -14,8 +14,8 @@ const SPEC: Spec = Spec {
         "the RNG is consumed through RngCore::{next_u32,next_u64,fill_bytes} with little-endian word order, as rand's block RNGs do; tied to a real generator by replaying the ChaCha value-stability vectors of ci/big_rand",
         "uniformity is decided as exact counting (every candidate of the width is presented once per filler pattern), not as a statistical statement",
     ],
-    bounds_quick: "stream length <= 8 words (32-bit-word generator) / <= 6 words (64-bit-native generator: whole 64-bit units per request); gen_biguint/gen_bigint/RandomBits for every n in 0..=130; below/range/Uniform over 10 bounds x 3 offsets and 14 signed ranges; uniformity for widths <= 11; panic clauses; ChaCha vectors",
-    bounds_thorough: "stream length <= 10 words; n in 0..=260; uniformity for widths <= 13",
+    bounds_quick: "stream length <= 8 words (32-bit-word generator) / <= 6 words (64-bit-native generator: whole 64-bit units per request); gen_biguint/gen_bigint/RandomBits for every n in 0..=130; below/range/Uniform over 10 bounds x 3 offsets and 14 signed ranges; uniformity for widths <= 11; panic clauses; ChaCha vectors; L-long bit sizes 1000..100001 x 3 dense streams x 2 generator kinds",
+    bounds_thorough: "stream length <= 10 words; n in 0..=260; uniformity for widths <= 13; L-long up to 1000003 bits",
     hang_secs: 120,
     probes: None,
     max_workers: 16,
@@ -146,6 +146,15 @@ enum Api {
     SingleI(Int, Int),
 }
 
+/// printable form of a word stream (long streams: head, length and a checksum)
+fn ws(words: &[u32]) -> String {
+    if words.len() <= 16 {
+        format!("{:x?}", words)
+    } else {
+        let sum = words.iter().fold(0u64, |a, &w| a.wrapping_mul(0x100000001b3).wrapping_add(w as u64));
+        format!("{:x?}..(+{} words, checksum {:x})", &words[..8], words.len() - 8, sum)
+    }
+}
 /// runs the real call and the model on `words`; returns words consumed by the real call
 fn run_node(ctx: &mut Ctx, api: &Api, words: &[u32]) -> usize {
     ctx.case();
@@ -200,7 +209,7 @@ fn run_node(ctx: &mut Ctx, api: &Api, words: &[u32]) -> usize {
         Api::SingleI(l, u) => UniformBigInt::sample_single(bi_int(l), bi_int(u), &mut rng),
     });
     let consumed = rng.pos;
-    let args = || vec![format!("{:?}", api), format!("stream={:x?}", words)];
+    let args = || vec![format!("{:?}", api), format!("stream={}", ws(words))];
     ctx.compared(2);
     match got {
         Out::Ret(x) => {
@@ -216,13 +225,13 @@ fn run_node(ctx: &mut Ctx, api: &Api, words: &[u32]) -> usize {
                     let mut r2 = StreamRng { words, pos: 0 };
                     let again: Result<BigInt, String> = guard(|| RandomBits::new(*n).sample(&mut r2));
                     if again.as_ref().map(int_of) != Ok(g.clone()) {
-                        ctx.viol(format!("RandomBits!=gen_bigint {:?} stream={:x?}{}", api, words, kind()), "RandomBits does not match gen_bigint on the same stream", args(), g.to_hex(), format!("{:?}", again.map(|x| int_of(&x).to_hex())));
+                        ctx.viol(format!("RandomBits!=gen_bigint {:?} stream={}{}", api, ws(words), kind()), "RandomBits does not match gen_bigint on the same stream", args(), g.to_hex(), format!("{:?}", again.map(|x| int_of(&x).to_hex())));
                     }
                 }
             } else if g != want {
-                ctx.viol(format!("{:?} stream={:x?}{}", api, words, kind()), "result is not the specified function of the RNG stream", args(), want.to_hex(), g.to_hex());
+                ctx.viol(format!("{:?} stream={}{}", api, ws(words), kind()), "result is not the specified function of the RNG stream", args(), want.to_hex(), g.to_hex());
             } else if consumed != m.pos {
-                ctx.viol(format!("words-consumed {:?} stream={:x?}{}", api, words, kind()), "number of RNG words consumed differs from the specification", args(), format!("{}", m.pos), format!("{}", consumed));
+                ctx.viol(format!("words-consumed {:?} stream={}{}", api, ws(words), kind()), "number of RNG words consumed differs from the specification", args(), format!("{}", m.pos), format!("{}", consumed));
             }
             // range clause, independent of the model value
             let in_range = match api {
@@ -235,10 +244,10 @@ fn run_node(ctx: &mut Ctx, api: &Api, words: &[u32]) -> usize {
                 Api::UniformI(l, u, incl) => l.cmp(&g) != std::cmp::Ordering::Greater && (g.cmp(u) == std::cmp::Ordering::Less || (*incl && g == *u)),
             };
             if !in_range {
-                ctx.viol(format!("out-of-range {:?} stream={:x?}{}", api, words, kind()), "result outside the requested bounds", args(), "in range".into(), g.to_hex());
+                ctx.viol(format!("out-of-range {:?} stream={}{}", api, ws(words), kind()), "result outside the requested bounds", args(), "in range".into(), g.to_hex());
             }
         }
-        Out::Panic(p) => ctx.viol(format!("{:?} stream={:x?}{}", api, words, kind()), "generator panicked", args(), want.to_hex(), p),
+        Out::Panic(p) => ctx.viol(format!("{:?} stream={}{}", api, ws(words), kind()), "generator panicked", args(), want.to_hex(), p),
     }
     consumed.max(m.pos)
 }
@@ -451,6 +460,43 @@ fn body(ctx: &mut Ctx) {
         let r = call(ctx, || UniformBigInt::new_inclusive(ineg.clone(), ineg.clone()).sample(&mut rng));
         expect_int(ctx, "UniformBigInt::new_inclusive(-5,-5).sample", &|| vec![], r, &Int::from_i64(-5));
         ctx.sample(|| "zero bound, empty and inverted ranges must panic for every entry point".to_string());
+    }
+    // ---- L: long bit sizes and long bounds on fixed dense word streams (both generator kinds)
+    if ctx.space("L-long") {
+        let sizes: Vec<u64> = tier.pick(vec![1000, 1024, 4095, 4096, 4097, 65536 + 33, 100_001], vec![1000, 1024, 2047, 2048, 4095, 4096, 4097, 8191, 65535, 65536 + 33, 100_001, 1_000_003]);
+        for (o, &n) in sizes.iter().enumerate() {
+            if !ctx.mine(o as u64) {
+                continue;
+            }
+            let len = (n as usize + 31) / 32 * 3 + 8;
+            for salt in 0..3u64 {
+                let mut st = 0xabcd_ef01_2345_6789u64 ^ n ^ (salt << 56);
+                let mut words: Vec<u32> = (0..len).map(|_| (alpha::lcg(&mut st) >> 32) as u32).collect();
+                if salt == 1 {
+                    // top word of the first candidate all ones: bounded sampling must reject and redraw
+                    let k = (n as usize + 31) / 32;
+                    words[k - 1] = u32::MAX;
+                }
+                if salt == 2 {
+                    for w in words.iter_mut().take((n as usize + 31) / 32) {
+                        *w = 0; // zero magnitude first: gen_bigint's redraw rule
+                    }
+                }
+                for unit in [false, true] {
+                    UNIT64.store(unit, std::sync::atomic::Ordering::Relaxed);
+                    run_node(ctx, &Api::GenBiguint(n), &words);
+                    run_node(ctx, &Api::GenBigint(n), &words);
+                    run_node(ctx, &Api::RandomBitsU(n), &words);
+                    // a bound of exactly n bits: 2^(n-1) + 2^(n/2) + 1, and ranges around it
+                    let b = Nat::one().shl(n - 1).add(&Nat::one().shl(n / 2)).add(&Nat::one());
+                    run_node(ctx, &Api::Below(b.clone()), &words);
+                    run_node(ctx, &Api::RangeU(Nat::from_u64(7), b.add(&Nat::from_u64(7))), &words);
+                    run_node(ctx, &Api::UniformI(Int::new(true, b.clone()), Int::from_nat(b.clone()), true), &words);
+                    UNIT64.store(false, std::sync::atomic::Ordering::Relaxed);
+                }
+            }
+            ctx.sample(|| format!("bit size {}: 3 dense word streams x 2 generator kinds through gen_biguint / gen_bigint / RandomBits and an {}-bit bound through below / range / Uniform", n, n));
+        }
     }
     // ---- V: value stability with a real generator (ChaCha vectors of ci/big_rand)
     if ctx.space("V-chacha") && ctx.mine(0) {
